@@ -316,6 +316,15 @@ def make_lin(d: dict, terms: dict):
 _NUMT = (int, float, Fraction)
 
 
+class _ModScope:
+    """name-resolution scope of a module-level expression"""
+    cls = None
+    short = "<module>"
+
+    def __init__(self, module: str):
+        self.module = module
+
+
 class SDT(LDT):
     WATCH = ("append", "extend", "insert")
 
@@ -326,6 +335,9 @@ class SDT(LDT):
         self.tables: dict[str, Any] = {}
         self._tnames: dict[str, str] = {}
         self._const_cache: dict[int, Any] = {}
+        self._modvals: dict = {}
+        self._mutglob: dict = {}
+        self._resolving: dict = {}
         self.reset_run()
 
     # ------------------------------------------------------------------ driver
@@ -416,7 +428,12 @@ class SDT(LDT):
                         return None
                     it = x.items[0]
                     if isinstance(it, Spl):
-                        return None
+                        sub = self.phases(it.term, order)
+                        if sub is None or len(sub) != 1 or sub[0][0] != "star":
+                            return None
+                        out.append(sub[0][:6] + (Sym("?index"), tuple(x.cond) + tuple(sub[0][7])))
+                        off = Sym("?index")
+                        continue
                     idx = self.add(off, self.sub(x.fam.k, x.lo)) if x.lo else self.add(off, x.fam.k)
                     o = x.order if order == "fwd" else ("rev" if x.order == "fwd" else x.order)
                     out.append(("star", x.fam, x.lo, x.hi, o, it, idx, x.cond))
@@ -523,6 +540,13 @@ class SDT(LDT):
                 if isinstance(t, ast.Subscript):
                     base = self.concrete(self.ev(t.value, env))
                     k = self.concrete(self.ev(t.slice, env)) if not isinstance(t.slice, ast.Slice) else None
+                    if isinstance(t.slice, ast.Slice) and t.slice.step is None:
+                        lo_ = self.concrete(self.ev(t.slice.lower, env)) if t.slice.lower else None
+                        hi_ = self.concrete(self.ev(t.slice.upper, env)) if t.slice.upper else None
+                        if lo_ == -1 and hi_ is None:
+                            k = -1                       # del x[-1:]  ==  del x[-1]   (for a non-empty sequence)
+                        elif lo_ in (None, 0) and hi_ == 1:
+                            k = 0
                     if isinstance(base, Sym):
                         if k == -1:
                             self._rebind(env, base, SliceSym(f"{base.path}[:-1]", None, base, None, -1))
@@ -627,6 +651,40 @@ class SDT(LDT):
                 return
 
     # ------------------------------------------------------------------ loops
+    def assign(self, t, v, env):
+        if isinstance(t, (ast.Tuple, ast.List)) and sum(isinstance(e, ast.Starred) for e in t.elts) == 1:
+            vv = self.concrete(v)
+            i = next(j for j, e in enumerate(t.elts) if isinstance(e, ast.Starred))
+            before, after = t.elts[:i], t.elts[i + 1:]
+            st = aligned(vv) if isinstance(vv, list) else None
+            if st is not None and st.order == "fwd":
+                for j, e in enumerate(before):
+                    self.assign(e, self.at(st.fam, st.items[0], st.lo + j), env)
+                for j, e in enumerate(after):
+                    self.assign(e, self.at(st.fam, st.items[0], self.add(st.fam.n, st.hi - (len(after) - j))), env)
+                self.assign(t.elts[i].value, [Star(st.fam, st.lo + len(before), st.hi - len(after), st.items, st.order, st.cond, st.loop)], env)
+                return
+            if isinstance(vv, (list, tuple)) and not has_star(vv) and not any(isinstance(x, Spl) for x in vv) and len(vv) >= len(before) + len(after):
+                for e, x in zip(before, vv):
+                    self.assign(e, x, env)
+                for e, x in zip(after, vv[len(vv) - len(after):]):
+                    self.assign(e, x, env)
+                self.assign(t.elts[i].value, list(vv[len(before):len(vv) - len(after)]), env)
+                return
+            if isinstance(vv, Sym) and not vv.path.startswith("?"):
+                for j, e in enumerate(before):
+                    self.assign(e, SubSym(f"{vv.path}[{j}]", None, vv, j), env)
+                for j, e in enumerate(after):
+                    self.assign(e, SubSym(f"{vv.path}[{j - len(after)}]", None, vv, j - len(after)), env)
+                lo, hi = len(before) or None, (-len(after)) or None
+                self.assign(t.elts[i].value, [Spl(SliceSym(f"{vv.path}[{lo or ''}:{hi or ''}]", None, vv, lo, hi))] if (lo or hi) else [Spl(vv)], env)
+                return
+            for x in ast.walk(t):
+                if isinstance(x, ast.Name):
+                    env[x.id] = Sym("?" + x.id)
+            return
+        return super().assign(t, v, env)
+
     def _lists_in(self, env):
         out = {}
         for v in env.values():
@@ -770,6 +828,8 @@ class SDT(LDT):
             for x in v:
                 if not x.items:
                     continue
+                if x.cond or any(x.icond):
+                    return True           # the generic element satisfied the filter in this valuation: it is an element of the list
                 if x.lo == 0 and x.hi == 0 and isinstance(x.fam.root, Sym):
                     if self.truth(x.fam.root):
                         return True
@@ -831,6 +891,28 @@ class SDT(LDT):
         self._const_cache[id(n)] = res
         return res
 
+    def closed_value(self, module: str, src: str):
+        """value of a closed expression of the package (constant evaluator first, then symbolic evaluation; NOC if symbols remain)"""
+        from ..consteval import const_expr
+        node = ast.parse(src, mode="eval").body
+        try:
+            v = const_expr(self.pm, module, node)
+        except Exception:
+            v = NOC
+        if v is not NOC:
+            return v
+        saved = (self.val, self.stores, self.run_state, self.depth)
+        self.val, self.stores, self.run_state, self.depth = {}, {}, Run(), 0
+        try:
+            v = self.ev(node, {"__fi__": _ModScope(module)})
+        except (NeedAtom, _Raise, Unsupported, RecursionError):
+            v = NOC
+        finally:
+            self.val, self.stores, self.run_state, self.depth = saved
+        if v is NOC or any(isinstance(p, (Sym, Star, Spl, View)) for p in sparts(v)) or isinstance(v, (Star, Spl, View)):
+            return NOC
+        return v
+
     def ev(self, n, env):
         if isinstance(n, (ast.Call, ast.Subscript)) and id(n) not in self._pre:
             c = self._closed_const(n, env)
@@ -838,6 +920,107 @@ class SDT(LDT):
                 import copy
                 return copy.deepcopy(c) if isinstance(c, (dict, list)) else (tuple(sorted(c, key=repr)) if isinstance(c, (set, frozenset)) else c)
         return super().ev(n, env)
+
+    def ev_Name(self, n, env):
+        if n.id not in env and n.id not in ("True", "False", "None"):
+            fi = env.get("__fi__")
+            if fi is not None:
+                key = (fi.module, n.id)
+                if key in self._modvals:
+                    return self._modvals[key]
+                r = self.pm.resolve(fi.module, n.id)
+                if r and r[0] == "value" and not isinstance(r[1][1], ast.Constant) and self._mutated_global(r[1][0].name, n.id):
+                    # process-wide mutable state: its initial literal does not describe it
+                    val = Sym(f"?mutable:{n.id}")
+                    self._modvals[key] = val
+                    return val
+                if r and r[0] == "value" and isinstance(r[1][1], ast.Call) and not self._resolving.get(key):
+                    from ..consteval import const_expr
+                    try:
+                        c0 = const_expr(self.pm, r[1][0].name, r[1][1])
+                    except Exception:
+                        c0 = NOC
+                    if c0 is NOC:
+                        self._resolving[key] = True
+                        try:
+                            c0 = self.closed_value(r[1][0].name, unparse(r[1][1]))
+                        finally:
+                            self._resolving[key] = False
+                        if c0 is not NOC and isinstance(c0, (dict, list, tuple)):
+                            self._modvals[key] = c0
+                            return c0
+                if r and r[0] == "value" and isinstance(r[1][1], (ast.Dict, ast.List, ast.Tuple, ast.Set, ast.Lambda)) \
+                        and any(isinstance(x, ast.Lambda) for x in ast.walk(r[1][1])):
+                    mi, expr = r[1]
+                    if not self._mutated_global(mi.name, n.id):
+                        scope = _ModScope(mi.name)
+                        try:
+                            val = self.ev(expr, {"__fi__": scope})
+                        except Unsupported:
+                            val = None
+                        if val is not None and not isinstance(val, Sym):
+                            self._modvals[key] = val
+                            return val
+        return super().ev_Name(n, env)
+
+    def _mutated_global(self, module: str, name: str) -> bool:
+        """is the module-level name re-bound or its object mutated anywhere in the package (then its literal does not describe it)"""
+        k = (module, name)
+        if k not in self._mutglob:
+            hit = False
+            MUT = ("update", "setdefault", "pop", "clear", "append", "extend", "add", "discard", "remove", "popitem", "insert")
+            for mi in self.pm.modules.values():
+                aliases = {a.targets[0].id for a in ast.walk(mi.tree) if isinstance(a, ast.Assign) and len(a.targets) == 1 and isinstance(a.targets[0], ast.Name)
+                           and isinstance(a.value, ast.Name) and a.value.id == name and a.targets[0].id != name}
+                for x in ast.walk(mi.tree):
+                    if aliases and isinstance(x, ast.Call) and isinstance(x.func, ast.Attribute) and isinstance(x.func.value, ast.Name) and x.func.value.id in aliases and x.func.attr in MUT:
+                        hit = True
+                    elif aliases and isinstance(x, ast.Subscript) and isinstance(x.ctx, (ast.Store, ast.Del)) and isinstance(x.value, ast.Name) and x.value.id in aliases:
+                        hit = True
+                    if isinstance(x, ast.Global) and name in x.names:
+                        hit = True
+                    elif isinstance(x, (ast.Subscript, ast.Attribute)) and isinstance(x.ctx, (ast.Store, ast.Del)) and isinstance(x.value, ast.Name) and x.value.id == name:
+                        hit = True
+                    elif isinstance(x, ast.Call) and isinstance(x.func, ast.Attribute) and isinstance(x.func.value, ast.Name) and x.func.value.id == name \
+                            and x.func.attr in ("update", "setdefault", "pop", "clear", "append", "extend", "add", "discard", "remove", "popitem", "insert"):
+                        hit = True
+            self._mutglob[k] = hit
+        return self._mutglob[k]
+
+    def invoke(self, fi, recv, args, n, env, kw=None):
+        if any(isinstance(x, (ast.Yield, ast.YieldFrom)) for x in walk_no_nested(fi.node)):
+            a = fi.node.args
+            ps = [x.arg for x in list(a.posonlyargs) + list(a.args)]
+            bound = {}
+            if fi.cls and not fi.is_static and ps:
+                bound[ps[0]] = recv if recv is not None else Sym("self", fi.cls)
+                ps = ps[1:]
+            for p_, v_ in zip(ps, args):
+                bound[p_] = v_
+            for k_, v_ in (kw or {}).items():
+                bound[k_] = v_
+            out: list = []
+            bound["__yield__"] = out
+            bound["__fi__"] = fi
+            if self.depth > self.inline_depth:
+                raise Unsupported("inline depth exceeded at " + fi.short)
+            self.depth += 1
+            try:
+                self.block(fi.node.body, bound)
+            except _Return:
+                pass
+            finally:
+                self.depth -= 1
+            return out
+        return super().invoke(fi, recv, args, n, env, kw)
+
+    def ev_Yield(self, n, env):
+        env.setdefault("__yield__", []).append(self.ev(n.value, env) if n.value is not None else None)
+        return None
+
+    def ev_YieldFrom(self, n, env):
+        self._extend(env.setdefault("__yield__", []), self.ev(n.value, env), n)
+        return None
 
     def ev_Starred(self, n, env):
         return Spl(self.ev(n.value, env))
@@ -1097,6 +1280,11 @@ class SDT(LDT):
             k = self.concrete(self.ev(n.slice, env))
             if isinstance(base, list) and has_star(base):
                 st = aligned(base)
+                if st is None and len(base) == 1 and len(base[0].items) == 1 and base[0].cond and not base[0].icond[0] and k in (0, -1) and base[0].order in ("fwd", "rev") \
+                        and not isinstance(base[0].items[0], (Spl, Star)):
+                    f0 = base[0]
+                    kind = ("last" if k == -1 else "first") if f0.order == "fwd" else ("first" if k == -1 else "last")
+                    return self.pick(f0.fam, kind, f0.cond, f0.items[0])
                 if st is not None and isinstance(k, int) and st.order == "fwd":
                     pos = (st.lo + k) if k >= 0 else self.add(st.fam.n, st.hi + k)
                     return self.at(st.fam, st.items[0], pos)
@@ -1267,11 +1455,23 @@ class SDT(LDT):
                     ph = self.phases(v)
                     if ph is not None and all(p[0] == "star" for p in ph):
                         return [Star(p[1], p[2], p[3], [p[5]], p[4], p[7]) for p in ph]
+                    if ph is not None and all(p[0] == "one" for p in ph):
+                        return [p[1] for p in ph]
                     return v
                 if isinstance(v, (list, tuple)):
                     return list(v)
                 if isinstance(v, Sym):
                     return [Spl(v)]
+            if nm == "dict" and len(n.args) == 1 and not n.keywords:
+                v = self.concrete(self.ev(n.args[0], env))
+                if isinstance(v, View):
+                    ph = self.phases(v)
+                    v = [p[1] for p in ph] if ph is not None and all(p[0] == "one" for p in ph) else v
+                if isinstance(v, dict):
+                    return dict(v)
+                if isinstance(v, (list, tuple)) and all(isinstance(x, (list, tuple)) and len(x) == 2 and not isinstance(x[0], (Sym, list, dict)) for x in v):
+                    return {x[0]: x[1] for x in v}
+                return Sym(f"?dict({show(v)[:60]})")
             if nm in ("set", "frozenset") and len(n.args) == 1:
                 v = self.concrete(self.ev(n.args[0], env))
                 if isinstance(v, (list, tuple)) and not has_star(v) and not has_sym(v):
@@ -1302,6 +1502,24 @@ class SDT(LDT):
                 v = self.concrete(self.ev(n.args[0], env))
                 if isinstance(v, Sym):
                     return CmpSym(f"bool({v.path})", None, ast.NotEq, v, 0) if False else self.truth(v)
+        if isinstance(f, ast.Attribute) and isinstance(f.value, ast.Name) and f.value.id not in env:
+            fi0 = env.get("__fi__")
+            r0 = self.pm.resolve(fi0.module, f.value.id) if fi0 is not None else None
+            if r0 and r0[0] == "class":
+                cand = self.pm.find_method(r0[1].name, f.attr)
+                if cand is not None and (cand.is_static or "classmethod" in cand.decorators) and f.attr not in self.watch and f.attr not in self.opaque_calls:
+                    args = [self.ev(a, env) for a in n.args]
+                    kw = {k.arg: self.ev(k.value, env) for k in n.keywords if k.arg}
+                    recv = None if cand.is_static else Sym("cls", r0[1].name)
+                    if not cand.is_static:
+                        a_ = cand.node.args
+                        ps = [x.arg for x in list(a_.posonlyargs) + list(a_.args)]
+                        bound = {ps[0]: recv} if ps else {}
+                        for p_, v_ in zip(ps[1:], args):
+                            bound[p_] = v_
+                        bound.update(kw)
+                        return self.call_fi(cand, bound)
+                    return self.invoke(cand, None, args, n, env, kw)
         if isinstance(f, ast.Attribute) and f.attr in self.MUTATORS:
             r = self._mutate(n, env)
             if r is not NOC:
@@ -1647,6 +1865,23 @@ class AssembleSummary:
         return uniq
 
 
+def line_pred(dt, key: str, elem_path: str):
+    """the predicate on the generic line an atom stands for: ('contains', m) | ('startswith', prefix, stripped) | None"""
+    rec = dt.cmp.get(key)
+    if rec is None:
+        return None
+    if rec[0] == "member" and isinstance(rec[1], str) and isinstance(rec[2], Sym) and rec[2].path == elem_path:
+        return ("contains", rec[1])
+    if rec[0] == "truth" and isinstance(rec[1], CallSym) and rec[1].meth == "startswith" and len(rec[1].args) == 1 and isinstance(rec[1].args[0], str):
+        recv = rec[1].recv
+        stripped = False
+        if isinstance(recv, CallSym) and recv.meth in ("lstrip", "strip") and not recv.args:
+            recv, stripped = recv.recv, True
+        if isinstance(recv, Sym) and recv.path == elem_path:
+            return ("startswith", rec[1].args[0], stripped)
+    return None
+
+
 def _is_len_of(v, base) -> bool:
     d = lin_of(v) if not isinstance(v, (str, type(None))) else None
     return d is not None and d == {f"len({path_of(base)})": 1}
@@ -1767,7 +2002,7 @@ def _judge_row(ctx: Ctx, sm: AssembleSummary, row) -> int:
         if kind == "star":
             if path_of(what.fam.root) != sm.p_in:
                 root = what.fam.root
-                if what.order == "dedup" or (isinstance(root, Sym) and _mentions(root, sm.p_in)):
+                if what.order in ("dedup", "sorted", "set", "rev") and isinstance(root, Sym) and _mentions(root, sm.p_in) or what.order == "dedup":
                     sm.viol("parts not one per argument", f"the parts are taken from `{path_of(root)[:80]}` ({what.order}), not from one entry per argument in argument order: "
                             "a path listed twice / reordered inputs are not reproduced")
                     return 1
@@ -1880,6 +2115,27 @@ def _judge_piece(ctx: Ctx, sm: AssembleSummary, row, cls, elem_kind, items, desc
     reads = [p for p in sparts(base) if isinstance(p, CallSym) and (p.meth in READ_CALLS or p.meth == "open")]
     if not reads:
         raise _Gap(f"{label}: `{path_of(base)[:80]}` is not recognisably read from the input")
+    bp = path_of(base)
+
+    def known(k) -> bool:
+        rec = dt.cmp.get(k)
+        if rec is None:
+            return False
+        if line_pred(dt, k, bp + "[κ]") is not None:
+            return True                                   # marker predicate on the generic line
+        if rec[0] == "truth" and path_of(rec[1]) == bp:
+            return True                                   # emptiness of the line list
+        if "}" in k and isinstance(rec[0], type):
+            return True                                   # closing-line test
+        return False
+    odd = [k for k in row["val"] if bp in k and not known(k)]
+    if any((dt.cmp.get(k) or ("",))[0] == "truth" and path_of(dt.cmp[k][1]) == bp and v is False for k, v in row["val"].items()):
+        return                                            # an input without lines: every slice of it is empty
+
+    def viol(offending, msg, where=None):
+        if odd or "?" in show(piece):
+            raise _Gap(f"{label}: the piece `{show(piece)[:80]}` depends on a condition the evaluator does not interpret ({(odd or ['unknown term'])[0][:80]})")
+        sm.viol(offending, msg, where)
     # ---- start of the slice
     marker_true = None
     d_lo = None if lo is None else lin_of(lo)
@@ -1890,19 +2146,18 @@ def _judge_piece(ctx: Ctx, sm: AssembleSummary, row, cls, elem_kind, items, desc
     other = [k for k in d_lo if k != "" and not any(k == p.path for p in picks)]
     if first:
         if d_lo not in ({}, {"": 0}):
-            sm.viol("first input does not start at line 0", f"the first input is written from line `{path_of(lo)[:100]}`, not from its first line: its preamble is cut [{desc[:120]}]")
+            viol("first input does not start at line 0", f"the first input is written from line `{path_of(lo)[:100]}`, not from its first line: its preamble is cut [{desc[:120]}]")
     else:
         if other:
             raise _Gap(f"{label}: start index {path_of(lo)[:100]} depends on {other[:2]}")
         if not picks:
             # no scan result: either no marker line exists on this path, or the preamble is kept
-            marker_atoms = [(k, v) for k, v in row["val"].items() if (dt.cmp.get(k) or ("",))[0] == "member" and isinstance(dt.cmp[k][1], str)
-                            and isinstance(dt.cmp[k][2], Sym) and dt.cmp[k][2].path == path_of(base) + "[κ]"]
+            marker_atoms = [(k, v) for k, v in row["val"].items() if line_pred(dt, k, path_of(base) + "[κ]") is not None]
             if any(v is True for _k, v in marker_atoms):
-                sm.viol("later input starts at a fixed line", f"a later input is written from line `{path_of(lo) if lo is not None else 0}` although a marker line was found: "
+                viol("later input starts at a fixed line", f"a later input is written from line `{path_of(lo) if lo is not None else 0}` although a marker line was found: "
                         f"the preamble of later inputs is not skipped [{desc[:120]}]")
             elif not marker_atoms:
-                sm.viol("later input keeps its preamble", f"a later input is written from line `{path_of(lo) if lo is not None else 0}` without scanning for the end of its font table "
+                viol("later input keeps its preamble", f"a later input is written from line `{path_of(lo) if lo is not None else 0}` without scanning for the end of its font table "
                         f"[{desc[:120]}]: every input but the first must start after its own preamble")
         else:
             pk = picks[0]
@@ -1913,20 +2168,21 @@ def _judge_piece(ctx: Ctx, sm: AssembleSummary, row, cls, elem_kind, items, desc
                 rp, bp = sm.position_of(root), sm.position_of(base)
                 if not rp or [(x[0], path_of(x[2]) if x[0] == "pos" else "") for x in rp] == [(x[0], path_of(x[2]) if x[0] == "pos" else "") for x in bp]:
                     raise _Gap(f"{label}: the scanned sequence `{path_of(root)[:80]}` could not be related to the written lines `{path_of(base)[:60]}`")
-                sm.viol("start index from other lines", f"the start index of a later input is computed by scanning `{path_of(root)[:80]}`, not that input's own lines "
+                viol("start index from other lines", f"the start index of a later input is computed by scanning `{path_of(root)[:80]}`, not that input's own lines "
                         f"`{path_of(base)[:80]}`: the preamble length of one input is applied to another")
             dterm = lin_of(pk.term)
             if dterm is None or {k: v for k, v in dterm.items() if k != ""} != {pk.fam.k.path: 1}:
                 raise _Gap(f"{label}: the scan keeps `{path_of(pk.term)[:60]}`, not the line index")
             off = d_lo.get("", 0) + dterm.get("", 0)
-            ms = [(dt.cmp[k][1], v) for k, v in pk.conds if k in dt.cmp and dt.cmp[k][0] == "member" and isinstance(dt.cmp[k][1], str)]
-            extra = [(k, v) for k, v in pk.conds if not (k in dt.cmp and dt.cmp[k][0] == "member" and isinstance(dt.cmp[k][1], str))]
+            ep = path_of(pk.fam.root) + "[κ]"
+            ms = [(line_pred(dt, k, ep), v) for k, v in pk.conds if line_pred(dt, k, ep) is not None]
+            extra = [(k, v) for k, v in pk.conds if line_pred(dt, k, ep) is None]
             if len(ms) != 1 or ms[0][1] is not True:
-                raise _Gap(f"{label}: the scan condition {[k for k, _ in pk.conds][:2]} is not `<marker> in line`")
+                raise _Gap(f"{label}: the scan condition {[k[:60] for k, _ in pk.conds][:2]} is not a recognised predicate on the line (`<marker> in line`, `line.startswith(<prefix>)`)")
             if extra:
                 raise _Gap(f"{label}: the scan has further conditions {[k[:50] for k, _ in extra][:2]}")
             if pk.kind != "last":
-                sm.viol(f"scan takes the {pk.kind} marker line", f"the scan for the end of the font table keeps the {pk.kind} line containing {ms[0][0]!r}, not the last one: "
+                viol(f"scan takes the {pk.kind} marker line", f"the scan for the end of the font table keeps the {pk.kind} line satisfying {ms[0][0]!r}, not the last one: "
                         "for a later input part of the font table leaks into the assembled file")
             sm.markers.add(ms[0][0])
             sm.offsets.add(off)
@@ -1938,11 +2194,11 @@ def _judge_piece(ctx: Ctx, sm: AssembleSummary, row, cls, elem_kind, items, desc
     brace = [(k, v) for k, v in row["val"].items() if "}" in k and any(isinstance(p, SubSym) and (path_of(p.base) == path_of(base) or path_of(p.base).startswith(path_of(base) + "[")) for t in (dt.cmp.get(k) or ("", None, None))[1:3] for p in sparts(t))]
     if last:
         if minus1:
-            sm.viol("last input loses its closing line", f"the last line of the last input is dropped [{desc[:120]}]: the assembled document is not closed")
+            viol("last input loses its closing line", f"the last line of the last input is dropped [{desc[:120]}]: the assembled document is not closed")
     else:
         empty_base = any((dt.cmp.get(k) or ("",))[0] == "truth" and path_of(dt.cmp[k][1]) == path_of(base) and v is False for k, v in row["val"].items())
         if whole and not any(v is False for _k, v in brace) and not empty_base:
-            sm.viol("closing line of a non-last input kept", f"a non-last input is written up to its end [{desc[:120]}]: its closing brace ends the document before the following inputs")
+            viol("closing line of a non-last input kept", f"a non-last input is written up to its end [{desc[:120]}]: its closing brace ends the document before the following inputs")
     # ---- separators written with this piece (judged per valuation by _judge_separators)
     k0 = items.index(spl[0])
     before, after = items[:k0], items[k0 + 1:]
@@ -1950,12 +2206,82 @@ def _judge_piece(ctx: Ctx, sm: AssembleSummary, row, cls, elem_kind, items, desc
         if not isinstance(s0, str):
             raise _Gap(f"{label}: separator {show(s0)[:60]} is not a literal")
         if not (s0.startswith("\\page") and s0.endswith("\n") and s0[5:].strip() == ""):
-            sm.viol(f"separator {s0!r}", f"the line written between two inputs is {s0!r}, not a \\page line")
+            viol(f"separator {s0!r}", f"the line written between two inputs is {s0!r}, not a \\page line")
     sm.seps.append((cls, before, after, desc))
     ctx.instance("R17.2", fi.where(), f"{label} [{desc[:140]}]: lines[{path_of(lo) if lo is not None else ''}:{path_of(hi) if hi is not None else ''}] of {path_of(base)[:50]}; separators before {before} after {after}")
 
 
 # ---------------------------------------------------------------------------------------------- R17.1 writer side
+def _satisfies(pred, line: str):
+    """does a (possibly partial, '\0' = unknown continuation) line satisfy the reader's predicate: True / False / None (unknown)"""
+    if pred[0] == "contains":
+        if pred[1] in line.replace("\0", "\n"):
+            return True
+        return None if "\0" in line else False
+    pre, stripped = pred[1], pred[2]
+    t = line.lstrip() if stripped else line
+    known, open_end = t.split("\0")[0], "\0" in t
+    if known.startswith(pre):
+        return True
+    if open_end and pre.startswith(known):
+        return None
+    return False
+
+
+def line_heads(sh, start: set, n: int, budget: list):
+    """abstract run over a shape: the set of possible heads (first n characters, '\0' = non-literal continuation) of every line
+    that can begin inside it.  start / result: the possible heads of the line that is open at the beginning / end"""
+    heads: set = set()
+
+    def lit(states, text):
+        out = set()
+        for p in states:
+            cur = p
+            for ch in text:
+                if ch == "\n":
+                    heads.add(cur)
+                    cur = ""
+                elif len(cur) < n and not cur.endswith("\0"):
+                    cur += ch
+            out.add(cur)
+        return out
+
+    def run(x, states):
+        budget[0] -= 1
+        if budget[0] < 0:
+            raise _Gap("the document shape is too large for the line analysis")
+        if isinstance(x, S.Lit):
+            return lit(states, x.s)
+        if isinstance(x, (S.Int, S.Flt, S.Txt, S.Unk)):
+            return {p if (len(p) >= n or p.endswith("\0")) else p + "\0" for p in states}
+        if isinstance(x, S.EB):
+            return states
+        if isinstance(x, S.Seq):
+            for it in x.items:
+                states = run(it, states)
+            return states
+        if isinstance(x, S.Alt):
+            out = set()
+            for it in x.items:
+                out |= run(it, set(states))
+            return out
+        if isinstance(x, S.Star):
+            acc = set(states)
+            frontier = set(states)
+            for _ in range(6):
+                nxt = run(x.body, frontier) - acc
+                if not nxt:
+                    break
+                acc |= nxt
+                frontier = nxt
+            else:
+                raise _Gap("line analysis of a repeated part did not stabilise")
+            return acc
+        return states
+    end = run(sh, set(start))
+    return heads, end
+
+
 def r17_1(ctx: Ctx, markers: set, offsets: set) -> None:
     """the literal preamble the encoders write, against the marker / offset the reader uses"""
     pm = ctx.pm
@@ -1966,7 +2292,7 @@ def r17_1(ctx: Ctx, markers: set, offsets: set) -> None:
         marker = add = None
     else:
         marker, add = next(iter(markers)), next(iter(offsets))
-        ctx.instance("R17.1", rfi.where(), f"reader: a later input starts at (last line containing {marker!r}) + {add}")
+        ctx.instance("R17.1", rfi.where(), f"reader: a later input starts at (last line satisfying {marker!r}) + {add}")
     for path in PATHS:
         fi = pm.func(path)
         _, sh = doc_shape(it, pm, path)
@@ -2016,16 +2342,32 @@ def r17_1(ctx: Ctx, markers: set, offsets: set) -> None:
             if marker is None:
                 continue
             lines = pre.split("\n")
-            idx = [i for i, ln in enumerate(lines) if marker in ln]
+            idx = [i for i, ln in enumerate(lines[:close_line + 1]) if _satisfies(marker, ln) is True]
             if not idx:
-                ctx.violation("R17.1", path, f"marker {marker} absent", fi.where(), f"{path}: the preamble contains no line with {marker!r}; assemble_rtf keeps the whole file of later inputs")
+                ctx.violation("R17.1", path, f"marker {marker} absent", fi.where(), f"{path}: the font table contains no line satisfying {marker!r}; assemble_rtf keeps the whole file of later inputs")
                 continue
-            # the marker must not occur in the literal parts after the preamble either (the reader takes the LAST line containing it)
+            # the reader takes the LAST line satisfying the predicate: no line after the font table may satisfy it
+            try:
+                after_pre = "\n".join(lines[close_line + 1:])
+                n_head = (len(marker[1]) + 12) if marker[0] == "startswith" else 0
+                late = None
+                if marker[0] == "contains":
+                    late = next((x.s for x in S.walk(S.seq(S.Lit(after_pre), *items[1:])) if isinstance(x, S.Lit) and marker[1] in x.s), None)
+                else:
+                    hs, end = line_heads(S.seq(S.Lit(after_pre), *items[1:]), {""}, n_head, [200000])
+                    late = next((h for h in sorted(hs | end) if _satisfies(marker, h) is True), None)
+                ctx.instance("R17.1", fi.where(), f"{path}: lines after the font table that can satisfy the reader's predicate {marker!r}: {late!r}")
+                if late is not None:
+                    ctx.violation("R17.1", path, f"predicate {marker[1]!r} also holds after the font table", rfi.where(),
+                                  f"{path}: a line after the font table can satisfy the reader's scan predicate {marker!r} (e.g. a line beginning `{late[:30]}`): the reader takes the "
+                                  "LAST such line, so for such a document everything up to that line (colour table, page header/footer, paper geometry) is cut from later inputs")
+            except _Gap as g_:
+                ctx.gap("R17.1", f"{path}: {g_}")
             expect = close_line - idx[-1] + 1
-            ctx.instance("R17.1", fi.where(), f"{path}: last {marker!r} line {idx[-1]}, font table closes on line {close_line}: the writer needs +{expect}, the reader adds +{add}")
+            ctx.instance("R17.1", fi.where(), f"{path}: last line satisfying {marker!r}: {idx[-1]}, font table closes on line {close_line}: the writer needs +{expect}, the reader adds +{add}")
             if expect != add:
                 ctx.violation("R17.1", path, f"offset writer {expect} reader {add}", rfi.where(),
-                              f"{path}: the body starts {expect} line(s) after the last {marker!r} line but assemble_rtf skips {add}: "
+                              f"{path}: the body starts {expect} line(s) after the last line satisfying {marker!r} but assemble_rtf skips {add}: "
                               + ("part of the preamble leaks into" if add < expect else "body lines are cut from") + " later inputs")
     ctx.floor("R17.1", 6)
 
